@@ -75,3 +75,54 @@ package client
 //@     invariant fresh(unprocessed) && unprocessed != nil && dom(input.RequestItems) == old(dom(input.RequestItems))
 //@   loop 2:
 //@     invariant fresh(unprocessed) && unprocessed != nil && dom(input.RequestItems) == old(dom(input.RequestItems)) && table in input.RequestItems && rangeindex >= -1
+
+// ---- C10 / C14: SDK v1 value <-> internal item, one level ------------------------------------------
+// The SDK v1 mappers copy field by field: kind and payload are preserved by construction (C10). What they do not do is
+// detach the payload from the caller's memory (C14): the clauses tagged C14 below state the isolation the property
+// asks for; the ones that fail on this tree are recorded as known finding C14-F2.
+//@ pred SameScalars(a *dynamodb.AttributeValue, r *types.Item) := r.S == a.S && r.N == a.N && r.BOOL == a.BOOL && r.NULL == a.NULL
+//@ pred SameSlices(a *dynamodb.AttributeValue, r *types.Item) := r.B == a.B && r.BS == a.BS && r.NS == a.NS && r.SS == a.SS
+//@ pred SameShape(a *dynamodb.AttributeValue, r *types.Item) := len(r.L) == len(a.L) && (r.L == nil) == (a.L == nil) && (r.M == nil) == (a.M == nil)
+
+//@ func mapAttributeValueToTypes
+//@   ensures[C10] (result == nil) == (attrs == nil)
+//@   ensures[C14] result == nil || fresh(result)
+//@   ensures[C10] attrs != nil ==> forall k string :: {k in result} (k in result) == (k in attrs && attrs[k] != nil)
+//@   ensures[C10,C14] forall k string :: {result[k]} k in result ==> result[k] != nil && fresh(result[k]) && SameScalars(attrs[k], result[k]) && SameSlices(attrs[k], result[k]) && SameShape(attrs[k], result[k])
+//@   ensures[C14] forall k string :: {result[k]} k in result ==> (result[k].S == nil || fresh(result[k].S)) && (result[k].N == nil || fresh(result[k].N)) && (result[k].BOOL == nil || fresh(result[k].BOOL)) && (result[k].NULL == nil || fresh(result[k].NULL))
+//@   ensures[C14] forall k string :: {result[k]} k in result ==> (arr(result[k].B) == 0 || fresh(arr(result[k].B))) && (arr(result[k].BS) == 0 || fresh(arr(result[k].BS))) && (arr(result[k].NS) == 0 || fresh(arr(result[k].NS))) && (arr(result[k].SS) == 0 || fresh(arr(result[k].SS)))
+//@   loop 1:
+//@     invariant fresh(mapItems) && mapItems != nil && attrs != nil
+//@     invariant forall k string :: {k in mapItems} (k in mapItems) == (k in visited && attrs[k] != nil)
+//@     invariant forall k string :: {mapItems[k]} k in mapItems ==> mapItems[k] != nil && fresh(mapItems[k]) && SameScalars(attrs[k], mapItems[k]) && SameSlices(attrs[k], mapItems[k]) && SameShape(attrs[k], mapItems[k])
+
+//@ func mapAttributeValueListToTypes
+//@   ensures[C10] (result == nil) == (attrs == nil) && len(result) == len(attrs)
+//@   ensures[C14] result == nil || fresh(arr(result))
+//@   ensures[C10,C14] forall j int :: {result[j]} 0 <= j && j < len(attrs) && attrs[j] != nil ==> result[j] != nil && fresh(result[j]) && SameScalars(attrs[j], result[j]) && SameSlices(attrs[j], result[j]) && SameShape(attrs[j], result[j])
+//@   loop 1:
+//@     invariant fresh(arr(mapItems)) && arr(mapItems) != 0 && len(mapItems) == len(attrs) && attrs != nil && rangeindex >= -1 && rangeindex < len(attrs)
+//@     invariant forall j int :: {mapItems[j]} 0 <= j && j <= rangeindex && attrs[j] != nil ==> mapItems[j] != nil && fresh(mapItems[j]) && SameScalars(attrs[j], mapItems[j]) && SameSlices(attrs[j], mapItems[j]) && SameShape(attrs[j], mapItems[j])
+
+//@ pred SameScalarsD(r *types.Item, a *dynamodb.AttributeValue) := r.S == a.S && r.N == a.N && r.BOOL == a.BOOL && r.NULL == a.NULL
+//@ pred SameSlicesD(r *types.Item, a *dynamodb.AttributeValue) := r.B == a.B && r.BS == a.BS && r.NS == a.NS && r.SS == a.SS
+//@ pred SameShapeD(r *types.Item, a *dynamodb.AttributeValue) := len(r.L) == len(a.L) && (r.L == nil) == (a.L == nil) && (r.M == nil) == (a.M == nil)
+
+//@ func mapAttributeValueToDynamodb
+//@   ensures[C10] (result == nil) == (attrs == nil)
+//@   ensures[C14] result == nil || fresh(result)
+//@   ensures[C10] attrs != nil ==> dom(result) == dom(attrs)
+//@   ensures[C10,C14] forall k string :: {result[k]} k in result ==> result[k] != nil && fresh(result[k]) && SameScalarsD(attrs[k], result[k]) && SameSlicesD(attrs[k], result[k]) && SameShapeD(attrs[k], result[k])
+//@   ensures[C14] forall k string :: {result[k]} k in result ==> (result[k].S == nil || fresh(result[k].S)) && (result[k].N == nil || fresh(result[k].N)) && (result[k].BOOL == nil || fresh(result[k].BOOL)) && (result[k].NULL == nil || fresh(result[k].NULL))
+//@   ensures[C14] forall k string :: {result[k]} k in result ==> (arr(result[k].B) == 0 || fresh(arr(result[k].B))) && (arr(result[k].BS) == 0 || fresh(arr(result[k].BS))) && (arr(result[k].NS) == 0 || fresh(arr(result[k].NS))) && (arr(result[k].SS) == 0 || fresh(arr(result[k].SS)))
+//@   loop 1:
+//@     invariant fresh(mapItems) && mapItems != nil && attrs != nil && dom(mapItems) == visited
+//@     invariant forall k string :: {mapItems[k]} k in mapItems ==> mapItems[k] != nil && fresh(mapItems[k]) && SameScalarsD(attrs[k], mapItems[k]) && SameSlicesD(attrs[k], mapItems[k]) && SameShapeD(attrs[k], mapItems[k])
+
+//@ func mapAttributeValueListToDynamodb
+//@   ensures[C10] (result == nil) == (attrs == nil) && len(result) == len(attrs)
+//@   ensures[C14] result == nil || fresh(arr(result))
+//@   ensures[C10,C14] forall j int :: {result[j]} 0 <= j && j < len(attrs) ==> result[j] != nil && fresh(result[j]) && SameScalarsD(attrs[j], result[j]) && SameSlicesD(attrs[j], result[j]) && SameShapeD(attrs[j], result[j])
+//@   loop 1:
+//@     invariant fresh(arr(mapItems)) && arr(mapItems) != 0 && len(mapItems) == len(attrs) && attrs != nil && rangeindex >= -1 && rangeindex < len(attrs)
+//@     invariant forall j int :: {mapItems[j]} 0 <= j && j <= rangeindex ==> mapItems[j] != nil && fresh(mapItems[j]) && SameScalarsD(attrs[j], mapItems[j]) && SameSlicesD(attrs[j], mapItems[j]) && SameShapeD(attrs[j], mapItems[j])
